@@ -7,6 +7,9 @@ import (
 	"math/big"
 	"strings"
 
+	"cosmossdk.io/math"
+	sdk "github.com/cosmos/cosmos-sdk/types"
+
 	ophosttypes "github.com/initia-labs/OPinit/x/ophost/types"
 )
 
@@ -258,6 +261,8 @@ func c03Build(x *c03Run, nA int, fullLeaves map[int]bool, rep *Report) {
 	for _, d := range sc.Denoms {
 		x.must(sc.op(L1Op{Kind: "deposit", Sender: e.User(3).Str, Bridge: 1, To: "l2addr", Denom: d, Amt: big.NewInt(30000)}))
 		x.must(sc.op(L1Op{Kind: "deposit", Sender: e.User(4).Str, Bridge: 2, To: "l2addr", Denom: d, Amt: big.NewInt(30000)}))
+		// a plain transfer makes the escrow of bridge 1 hold more than 2^64
+		x.must(sc.op(L1Op{Kind: "send", FromID: 3, ToID: EscrowBase + 1, Denom: d, Amt: new(big.Int).Add(new(big.Int).Lsh(big.NewInt(1), 64), big.NewInt(7))}))
 	}
 	leavesOf := func(pt *ProposedTree) [][]byte { return pt.Tree.Levels[0] }
 	A := sc.MakeTree(1, nA)
@@ -552,24 +557,60 @@ func c03Effect(c *L1Case, prev, cur Ov, o L1Op) string {
 	return ""
 }
 
+// c03RunTwice is RunL1Twice with a preparation step applied to both fresh instances: user 3
+// holds more than 2^64 of every denom, so that the escrow of bridge 1 can be made to hold more
+// than 2^64 (by plain bank transfers) and a claim of amount + 2^64 is not rejected merely for
+// lack of funds.
+func c03RunTwice(seed uint64, id int, build L1Builder, rep *Report) *L1Case {
+	mk := func() *L1Scenario {
+		sc := NewL1Scenario(seed, id, nil)
+		var cs sdk.Coins
+		for _, d := range sc.Denoms {
+			cs = append(cs, sdk.NewCoin(d, math.NewIntFromBigInt(c03Huge())))
+		}
+		sc.Env.Fund(sc.Env.User(3).Addr, cs.Sort())
+		sc.Case.Bals = nil
+		sc.Case.Snapshot()
+		return sc
+	}
+	sc := mk()
+	build(sc)
+	sc2 := mk()
+	sc2.Case.Track = sc.Case.Track
+	sc2.Env.Table = sc.Env.Table
+	sc2.Case.Parse = sc.Case.Parse
+	for i, o := range sc.Case.Ops {
+		r := sc2.Case.DoObs(o)
+		if r.OK != sc.Case.Results[i].OK {
+			rep.Violate(Violation{Case: id, Step: i, What: "the same history gave different verdicts on two fresh instances", Sig: "nondeterministic-verdict", Ops: l1OpsHuman(sc.Case.Ops[:i+1])})
+		}
+	}
+	return sc2.Case
+}
+
+// 2^64 + 10^6
+func c03Huge() *big.Int {
+	return new(big.Int).Add(new(big.Int).Lsh(big.NewInt(1), 64), big.NewInt(1000000))
+}
+
 func init() { register("C03", genC03) }
 
 func genC03(seed uint64, tier string, outdir string) *Report {
 	rep := NewReport("C03", seed, tier)
 	rep.Rule = "a case is one L1 history (two bridges, five outputs, every leaf of tree A claimed among perturbed claims); distinct by hash of the op list; " +
 		"non-trivial = at least one valid claim was paid and at least one perturbed claim was rejected"
-	nModel, nMon := 16, 12
+	nModel, nMon := 16, 10
 	if tier == "thorough" {
 		nModel, nMon = 160, 200
 	}
-	modelSizes := []int{1, 2, 3, 4, 5, 6, 7, 8, 9, 10, 12, 13}
+	modelSizes := []int{1, 2, 3, 4, 5, 6, 7, 8, 9, 3, 5, 11}
 	var texts []string
 	run := func(k int, nA int, full func(r *Rng) map[int]bool, model bool) {
 		id := k + 1
 		var last *c03Run
-		c := RunL1Twice(seed*100000+uint64(k), id, func(sc *L1Scenario) {
+		c := c03RunTwice(seed*100000+uint64(k), id, func(sc *L1Scenario) {
 			x := &c03Run{sc: sc, stored: map[[2]uint64]*c03Stored{}, track: model}
-			c03Build(x, nA, full(sc.R), rep) // RunL1Twice calls the builder once (pass 1)
+			c03Build(x, nA, full(sc.R), rep) // the builder is called once (pass 1)
 			last = x
 		}, rep)
 		c03Monitor(rep, c, last)
